@@ -2,13 +2,14 @@
 from __future__ import annotations
 
 import ast
+from dataclasses import dataclass
 from typing import Dict, List, Optional, Tuple
 
 from ..cfg import CFG, Node
 from ..core import AnalysisError, Cls, Fn, Repo, call_name, calls_in, const_value, dotted, get_kw, last_attr, short, walk_no_nested
 from ..pat import has
 from ..report import Check
-from ..terms import Poly, TermBuilder, mentions, single_atom
+from ..terms import ADAPTER_FUNCS, ADAPTER_METHODS, Poly, TermBuilder, mentions, single_atom
 from ..util import self_attr_stores
 
 RB = "agilerl.components.replay_buffer"
@@ -278,32 +279,201 @@ def _who_writes(ck: Check, repo: Repo) -> None:
           "the tree capacity is the smallest power of two >= max_size", construct="tree capacity loop")
 
 
+# callables that hand a sequence on element by element (same elements, same order)
+_SEQ_FUNCS = set(ADAPTER_FUNCS) | {"list", "tuple", "torch.stack", "np.stack", "torch.FloatTensor", "np.fromiter"}
+
+
+@dataclass
+class _Build:
+    """One way in which the returned sequence of weights is built."""
+    site: ast.AST  # the iteration the sequence is built by (what the loop / the generator runs over)
+    index_src: Optional[str]  # source text of `the sampled index of the current position`; None: not an iteration over the sampled indices
+    why: str  # why the positions do not line up with the sampled indices ("" when they do)
+    elems: List[Tuple[ast.AST, Node]]  # (expression of the weight of the current position, node it is evaluated at)
+    comp: Optional[ast.AST] = None  # the comprehension, when the sequence is one
+
+
+def _sources(cfg: CFG, e: ast.AST, at: Node, _depth: int = 0) -> List[Tuple[ast.AST, Node]]:
+    """Where the value of `e` (evaluated at `at`) is built: looks through value-neutral adapters, conditional expressions and plain
+    local bindings (every reaching definition); stops at comprehensions, at containers that are updated in place and at anything else."""
+    if _depth > 12:
+        return [(e, at)]
+    if isinstance(e, ast.Call):
+        if isinstance(e.func, ast.Attribute) and e.func.attr in ADAPTER_METHODS:
+            return _sources(cfg, e.func.value, at, _depth + 1)
+        if call_name(e) in _SEQ_FUNCS and e.args and not isinstance(e.args[0], ast.Starred):
+            return _sources(cfg, e.args[0], at, _depth + 1)
+    if isinstance(e, ast.IfExp):
+        return _sources(cfg, e.body, at, _depth + 1) + _sources(cfg, e.orelse, at, _depth + 1)
+    if isinstance(e, ast.NamedExpr):
+        return _sources(cfg, e.value, at, _depth + 1)
+    if isinstance(e, ast.Name):
+        defs = cfg.defs_reaching(at, e.id)
+        vals = [cfg.value_of_def(d, e.id) for d in defs]
+        if defs and all(v is not None and d.kind == "stmt" and d is not at for d, v in zip(defs, vals)):
+            out: List[Tuple[ast.AST, Node]] = []
+            for d, v in zip(defs, vals):
+                out += _sources(cfg, v, d, _depth + 1)
+            return out
+    return [(e, at)]
+
+
+def _index_iteration(tb: TermBuilder, at: Node, target: ast.AST, it: ast.AST, pidx: str) -> Optional[Tuple[str, Optional[str]]]:
+    """(source text of the sampled index of the current position, name of the position counter or None) when `for target in it`
+    visits the sampled indices (parameter `pidx`) one by one, first to last; None otherwise."""
+    sampled = Poly.atom(f"param:{tb.fn.qualname}.{pidx}")
+    if isinstance(it, ast.Call) and call_name(it) == "enumerate" and len(it.args) >= 1:
+        start = get_kw(it, "start", 1)
+        if len(it.args) <= 2 and (start is None or const_value(start) == 0) and isinstance(target, (ast.Tuple, ast.List)) and len(target.elts) == 2 \
+                and all(isinstance(x, ast.Name) for x in target.elts) and tb.term(it.args[0], at) == sampled:
+            return target.elts[1].id, target.elts[0].id
+        return None
+    if not isinstance(target, ast.Name):
+        return None
+    if isinstance(it, ast.Call) and call_name(it) == "range" and not it.keywords:
+        a = it.args
+        ok = len(a) == 1 or (len(a) == 2 and const_value(a[0]) == 0) or (len(a) == 3 and const_value(a[0]) == 0 and const_value(a[2]) == 1)
+        if ok and tb.term(a[0] if len(a) == 1 else a[1], at) == tb.term(_expr(f"len({pidx})"), at):
+            return f"{pidx}[{target.id}]", target.id
+        return None
+    if tb.term(it, at) == sampled:
+        return target.id, None
+    return None
+
+
+def _comp_with(comp: ast.AST, elt: ast.AST) -> ast.AST:
+    """The comprehension `comp` with another element expression (same generators)."""
+    new = ast.ListComp(elt=elt, generators=comp.generators)
+    return ast.fix_missing_locations(ast.copy_location(new, comp))
+
+
+def _comp_build(tb: TermBuilder, e: ast.AST, at: Node, pidx: str) -> Optional[_Build]:
+    if not isinstance(e, (ast.ListComp, ast.GeneratorExp)):
+        return None
+    g = e.generators[0]
+    it = _index_iteration(tb, at, g.target, g.iter, pidx) if len(e.generators) == 1 and not g.is_async else None
+    why = ""
+    if it is None:
+        why = "the comprehension does not run over the sampled indices one by one, first to last"
+    elif g.ifs:
+        why = "the filter drops sampled indices: the weights no longer line up with the indices"
+    return _Build(g.iter, it[0] if it else None, why, [(e.elt, at)], e)
+
+
+def _loop_build(tb: TermBuilder, e: ast.AST, at: Node, pidx: str) -> Optional[_Build]:
+    if not isinstance(e, ast.Name):
+        return None
+    cfg = tb.cfg
+    defs = cfg.defs_reaching(at, e.id)
+    writes = [d for d in defs if cfg.value_of_def(d, e.id) is None]
+    binds = [d for d in defs if d not in writes]
+    if not writes:
+        return None
+
+    def inside(loop: ast.AST, d: Node) -> bool:
+        return d.stmt is not None and any(x is d.stmt for b in loop.body for x in ast.walk(b))
+
+    loops = [l for l in cfg.live_nodes() if l.kind == "for" and any(inside(l.ast, w) for w in writes)]
+    if len(loops) != 1:
+        return _Build(writes[0].ast, None, f"`{short(writes[0].ast, 80)}` changes the container outside every loop" if not loops else
+                      f"`{e.id}` is updated in place by {len(loops)} (nested) loops; expected one loop over the sampled indices", [])
+    L = loops[0]
+    it = _index_iteration(tb, L, L.ast.target, L.ast.iter, pidx)
+    if it is None:
+        return _Build(L.ast.iter, None, "the loop does not visit the sampled indices one by one, first to last", [])
+    index_src, counter = it
+    elems: List[Tuple[ast.AST, Node]] = []
+    why = ""
+    appends = 0
+    for w in writes:
+        s = w.ast
+        if not inside(L.ast, w):
+            why = why or f"`{short(s, 80)}` changes the container outside the loop over the sampled indices"
+        elif w.kind == "stmt" and isinstance(s, ast.Assign) and len(s.targets) == 1 and isinstance(s.targets[0], ast.Subscript) \
+                and isinstance(s.targets[0].value, ast.Name) and s.targets[0].value.id == e.id:
+            # element store: the position written is the position of the sampled index (the loop's own counter)
+            okp = counter is not None and cfg.defs_reaching(w, counter) == [L] \
+                and tb.term(s.targets[0].slice, w) == tb.term(ast.Name(id=counter, ctx=ast.Load()), w)
+            if not okp:
+                why = why or f"`{short(s.targets[0], 80)}` is not the position of the sampled index the weight belongs to"
+            elems.append((s.value, w))
+        elif w.kind == "stmt" and isinstance(s, ast.Expr) and isinstance(s.value, ast.Call) and last_attr(s.value) == "append" \
+                and len(s.value.args) == 1 and not s.value.keywords and not isinstance(s.value.args[0], ast.Starred):
+            appends += 1
+            elems.append((s.value.args[0], w))
+        else:
+            why = why or f"`{short(s, 80)}` changes the container in a way that is not one weight per sampled index"
+    if appends:
+        empty = all((isinstance(v, ast.List) and not v.elts) or (isinstance(v, ast.Call) and call_name(v) == "list" and not v.args)
+                    for v in (cfg.value_of_def(b, e.id) for b in binds))
+        if appends != len(writes) or appends != 1 or not empty:
+            why = why or "appending lines up with the sampled indices only with one append per iteration to a list that starts empty"
+    if not binds or any(inside(L.ast, b) for b in binds):
+        why = why or f"`{e.id}` is not allocated once, before the loop"
+    if any(isinstance(o, (ast.For, ast.AsyncFor, ast.While)) and o is not L.ast and any(x is L.ast for x in ast.walk(o)) for o in ast.walk(tb.fn.node)):
+        why = why or "the loop over the sampled indices is nested in another loop"
+    if cfg.path_avoiding(L, {L.id}, {w.id for w in writes}) is not None:
+        why = why or "some iterations do not write a weight: a sampled index is left without its weight"
+    return _Build(L.ast.iter, index_src, why, elems)
+
+
 def _weights(ck: Check, repo: Repo) -> None:
     fn = repo.fn(RB, "PrioritizedReplayBuffer._calculate_weights")
     cfg = CFG(fn.node)
     tb = TermBuilder(repo, fn, cfg=cfg, depth=0)
-    loops = [n for n in cfg.live_nodes() if n.kind == "for"]
-    if len(loops) != 1:
-        raise AnalysisError("_calculate_weights: expected one loop over the sampled indices")
-    lp = loops[0].ast
-    ok = isinstance(lp.iter, ast.Call) and call_name(lp.iter) == "enumerate" and dotted(lp.iter.args[0]) == "indices" and isinstance(lp.target, ast.Tuple)
-    ck.ob("C11.5", fn, lp.iter, ok, "weights are computed for each sampled index in order")
-    if not ok:
+    if len(fn.params) < 3:
+        raise AnalysisError("_calculate_weights: expected the parameters (self, sampled indices, beta)")
+    me, pidx, pbeta = fn.params[0], fn.params[1], fn.params[2]
+    rets = [n for n in cfg.live_nodes() if n.kind == "stmt" and isinstance(n.ast, ast.Return) and n.ast.value is not None]
+    if not rets:
+        raise AnalysisError("_calculate_weights: no value is returned")
+    # What is returned is a sequence with one weight per sampled index, at the position of that index.  The sequence is located from
+    # the returned value (through value-neutral adapters and plain local bindings), whichever way it is built:
+    #   * a comprehension / generator over the sampled indices whose element is the weight;
+    #   * a container updated in place by one loop over the sampled indices (element store at the loop position, or append).
+    builds: List[_Build] = []
+    unresolved: List[ast.AST] = []
+    for r in rets:
+        for e, at in _sources(cfg, r.ast.value, r):
+            b = _comp_build(tb, e, at, pidx) or _loop_build(tb, e, at, pidx)
+            if b is None:
+                unresolved.append(e)
+            elif not any(b.site is x.site for x in builds):
+                builds.append(b)
+    if not builds:
+        # nothing per-index is returned: the obligations are stated for the per-index sequences the function does build (the last one fails)
+        for n in cfg.live_nodes():
+            for x in n.walk():
+                b = _comp_build(tb, x, n, pidx)
+                if b is not None and b.index_src is not None:
+                    builds.append(b)
+            for key, strong in cfg.defs_at(n) if n.kind == "stmt" else []:
+                b = _loop_build(tb, ast.Name(id=key, ctx=ast.Load()), cfg.exit, pidx) if not strong and "." not in key else None
+                if b is not None and b.index_src is not None and not any(b.site is x.site for x in builds):
+                    builds.append(b)
+    if not builds:
+        raise AnalysisError("_calculate_weights: found neither a comprehension over the sampled indices nor a container filled by a loop over them")
+    for b in builds:
+        ck.ob("C11.5", fn, b.site, b.index_src is not None and not b.why, "weights are computed for each sampled index in order", detail=b.why)
+    builds = [b for b in builds if b.index_src is not None and not b.why]
+    if not builds:
         return
-    ivar, idxvar = lp.target.elts[0].id, lp.target.elts[1].id
-    stores = [n for n in cfg.live_nodes() if n.kind == "stmt" and isinstance(n.ast, ast.Assign) and isinstance(n.ast.targets[0], ast.Subscript)
-              and dotted(n.ast.targets[0].slice) == ivar]
-    ck.floor("C11.5", len(stores), 1, "weight store in the loop", fn=fn)
-    spec_src = (f"((self.sum_tree[{idxvar}] / self.sum_tree.sum()) * self.size) ** (-beta) / "
-                f"((self.min_tree.min() / self.sum_tree.sum()) * self.size) ** (-beta)")
-    for s in stores:
-        got = tb.term(s.ast.value, s)
-        want = tb.term(_expr(spec_src), s)
-        ck.ob("C11.5", fn, s.ast, got == want, "weight_i = (p_i*N)^-beta / (p_min*N)^-beta",
-              detail=f"got {got.key()[:220]} ; expected {want.key()[:220]}")
-    rets = [n for n in cfg.live_nodes() if n.kind == "stmt" and isinstance(n.ast, ast.Return)]
-    ck.ob("C11.5", fn, rets[0].ast if rets else fn.node, bool(rets) and all(dotted(r.ast.value) == dotted(stores[0].ast.targets[0].value) for r in rets),
-          "the tensor filled in the loop is what is returned")
+    ck.floor("C11.5", sum(len(b.elems) for b in builds), 1, "weight of a sampled index (element store in the loop / element of the comprehension)", fn=fn)
+    for b in builds:
+        spec_src = (f"(({me}.sum_tree[{b.index_src}] / {me}.sum_tree.sum()) * {me}.size) ** (-{pbeta}) / "
+                    f"(({me}.min_tree.min() / {me}.sum_tree.sum()) * {me}.size) ** (-{pbeta})")
+        for e, at in b.elems:
+            if b.comp is not None:
+                # element terms are compared under the comprehension's own bindings: same generators, specified element
+                got, want = tb.term(_comp_with(b.comp, e), at), tb.term(_comp_with(b.comp, _expr(spec_src)), at)
+                ga, wa = single_atom(tb, got), single_atom(tb, want)
+                detail = f"got {ga.sub[0].key()[:220]} ; expected {wa.sub[0].key()[:220]}" if ga is not None and wa is not None and ga.sub and wa.sub else ""
+            else:
+                got, want = tb.term(e, at), tb.term(_expr(spec_src), at)
+                detail = f"got {got.key()[:220]} ; expected {want.key()[:220]}"
+            ck.ob("C11.5", fn, at.ast if b.comp is None else e, got == want, "weight_i = (p_i*N)^-beta / (p_min*N)^-beta", detail=detail)
+    ck.ob("C11.5", fn, rets[0].ast, not unresolved, "what is returned is the sequence of per-index weights (the tensor filled in the loop / built from the comprehension)",
+          detail="; ".join(f"`{short(u, 80)}` is not built from the per-index weights" for u in unresolved))
     # sample(): weights computed for the sampled indices; idxs returned are those indices
     sm = repo.fn(RB, "PrioritizedReplayBuffer.sample")
     scfg = CFG(sm.node)
@@ -469,4 +639,29 @@ VARIANTS += [
     ("max-update-moved-to-caller-loop-ok", _RBF, "        # Update max priority\n        self.max_priority = max(self.max_priority, priority)\n", "        pass\n", "fire", "C11.3"),
     ("sum-tree-delta-override", _STF, "    def sum(self, start: int = 0, end: int = 0) -> float:",
      "    def __setitem__(self, idx, val):\n        idx += self.capacity\n        delta = val - self.tree[idx]\n        self.tree[idx] = val\n        idx //= 2\n        while idx >= 1:\n            self.tree[idx] += delta\n            idx //= 2\n\n    def sum(self, start: int = 0, end: int = 0) -> float:", "fire", "C11.1"),
+]
+# the per-index weights may be built by any construction that keeps position k for sampled index k (C11.5)
+_W_LOOP = ("        for i, idx in enumerate(indices):\n            p_sample = self.sum_tree[idx] / self.sum_tree.sum()\n"
+           "            weight = (p_sample * self.size) ** -beta\n            weights[i] = weight / max_weight  # Normalize\n\n        return weights\n")
+_W_ELT = "(self.sum_tree[idx] / self.sum_tree.sum() * self.size) ** -beta / max_weight"
+VARIANTS += [
+    ("weights-comprehension-ok", _RBF, _W_LOOP, "        total = self.sum_tree.sum()\n        normalized = [(self.sum_tree[idx] / total * self.size) ** -beta / max_weight for idx in indices]\n"
+     "        return torch.tensor(normalized, device=self.device).reshape(len(indices))\n", "silent", None),
+    ("weights-generator-ok", _RBF, _W_LOOP, f"        return torch.as_tensor(list({_W_ELT} for idx in indices), device=self.device)\n", "silent", None),
+    ("weights-append-loop-ok", _RBF, _W_LOOP, f"        out = []\n        for idx in indices:\n            out.append({_W_ELT})\n        return torch.tensor(out, device=self.device)\n", "silent", None),
+    ("weights-range-loop-ok", _RBF, "        for i, idx in enumerate(indices):\n", "        for i in range(batch_size):\n            idx = indices[i]\n", "silent", None),
+    ("weights-position-through-temporary-ok", _RBF, "            weights[i] = weight / max_weight  # Normalize\n",
+     "            pos = i\n            weights[pos] = weight / max_weight\n", "silent", None),
+    ("weights-moved-to-device-afterwards-ok", _RBF, "        return weights\n\n    def update_priorities(", "        weights = weights.to(self.device)\n        return weights\n\n    def update_priorities(", "silent", None),
+    ("weights-comprehension-no-normalise", _RBF, _W_LOOP, "        return torch.tensor([(self.sum_tree[idx] / self.sum_tree.sum() * self.size) ** -beta for idx in indices], device=self.device)\n", "fire", "C11.5"),
+    ("weights-comprehension-leaf-not-probability", _RBF, _W_LOOP, "        return torch.tensor([(self.sum_tree[idx] * self.size) ** -beta / max_weight for idx in indices], device=self.device)\n", "fire", "C11.5"),
+    ("weights-comprehension-filtered", _RBF, _W_LOOP, f"        return torch.tensor([{_W_ELT} for idx in indices if idx > 0], device=self.device)\n", "fire", "C11.5"),
+    ("weights-comprehension-reversed", _RBF, _W_LOOP, f"        return torch.tensor([{_W_ELT} for idx in reversed(indices)], device=self.device)\n", "fire", "C11.5"),
+    ("weights-comprehension-rescaled", _RBF, _W_LOOP, f"        return 2 * torch.tensor([{_W_ELT} for idx in indices], device=self.device)\n", "fire", "C11.5"),
+    ("weights-append-twice", _RBF, _W_LOOP, f"        out = []\n        for idx in indices:\n            out.append({_W_ELT})\n            out.append({_W_ELT})\n        return torch.tensor(out, device=self.device)\n", "fire", "C11.5"),
+    ("weights-wrong-position", _RBF, "            weights[i] = weight / max_weight  # Normalize\n", "            weights[idx] = weight / max_weight\n", "fire", "C11.5"),
+    ("weights-store-skipped", _RBF, "            weights[i] = weight / max_weight  # Normalize\n",
+     "            if p_sample > 0:\n                weights[i] = weight / max_weight\n", "fire", "C11.5"),
+    ("weights-range-loop-neighbour-index", _RBF, "        for i, idx in enumerate(indices):\n", "        for i in range(batch_size):\n            idx = indices[i - 1]\n", "fire", "C11.5"),
+    ("weights-rescaled-after-loop", _RBF, "        return weights\n\n    def update_priorities(", "        weights /= weights.sum()\n        return weights\n\n    def update_priorities(", "fire", "C11.5"),
 ]
